@@ -415,7 +415,8 @@ def op_fillblock(rng, pool, docs):
 def rand_id_c01(rng, pool, kind, h):
     """Defined, non-reserved IDs inside the field (C01's quantifier)."""
     if kind == 'uid':
-        return (0, rng.choice([1, 2, 3, 7, 0x1001, 0xfffffffe, 0x12345678]), 0)
+        # not 0xfffffffe: a clash there makes the library assign 0xffffffff, which is the undefined ID
+        return (0, rng.choice([1, 2, 3, 7, 0x1001, 0xfffffff0, 0x12345678]), 0)
     # not the top of the field: a clash there makes the library assign 0x10000, which has no four-digit text
     # (writeXml then throws) - an ID outside C01's domain "within field width"
     v = rng.choice([0x1000, 0x1001, 0x1002, 0x1005, 0xff00, 0xfe00, 0x2000])
